@@ -90,7 +90,17 @@ def main():
     ck.check_props()
     nmax = 4 if ck.quick else 6
     cases = []
-    for kind, n, g in G.collections(ck.rng, 500 if ck.quick else 5000, 2, nmax):
+    stream = list(G.collections(ck.rng, 500 if ck.quick else 5000, 2, nmax))
+    # large orbits: 5..7 qubits, among them generating sets of the whole su(2^n) (orbit 4^n - 1), so that every bound
+    # the search may place on the size of an orbit is met
+    big = list(G.collections(ck.rng, 40 if ck.quick else 200, 5, 6))
+    for n in (5, 6) if ck.quick else (5, 6, 7):
+        u = ["X" + "I" * (n - 1), "Z" + "I" * (n - 1), "I" + "X" + "I" * (n - 2), "I" + "Z" + "I" * (n - 2), "ZZ" + "I" * (n - 2)]
+        for j in range(2, n):
+            u += ["X" + "I" * (j - 1) + "X" + "I" * (n - j - 1), "X" + "I" * (j - 1) + "Z" + "I" * (n - j - 1)]
+        big.append(("universal", n, u))
+        big.append(("chain", n, ["I" * j + a + "I" * (n - j - 2) for j in range(n - 1) for a in ("XY", "XX")] + ["Z" + "I" * (n - 1)]))
+    for kind, n, g in stream + big:
         g = [s for s in g]
         r = ck.rng.random()
         v = G.uniform(ck.rng, n) if r < 0.6 else (ck.rng.choice(g) if r < 0.8 else G.commuting_with_all(ck.rng, n, g))
@@ -98,7 +108,7 @@ def main():
         if ck.rng.random() < 0.05:
             v = "I" * n
         from harness.cls import STRING_ROUTES
-        c = {"gens": g, "v": v, "w": w, "n": n, "gens2": regen(ck.rng, g), "complexity": n <= (4 if ck.quick else 5),
+        c = {"gens": g, "v": v, "w": w, "n": n, "gens2": regen(ck.rng, g), "complexity": n <= (4 if ck.quick else 5) or (n == 5 and ck.rng.random() < 0.2),
              "routes": [ck.rng.choice(STRING_ROUTES), ck.rng.choice(STRING_ROUTES), ck.rng.choice(STRING_ROUTES)]}
         if ck.rng.random() < 0.3:
             p, q = v, w
